@@ -450,7 +450,7 @@ pub fn run(ctx: &Ctx) -> CheckOutput {
             JobOut { stats: st, viols: sink.take(), samples: vec![json!({"explorer":"prefix x suffix","scalar":"f64","view":spec.name(),"K":k,"prefixes":"spikes of 1e15..1e17"})] }
         }));
     }
-    for n in if quick { vec![3usize, 8, 9, 13] } else { vec![2, 3, 5, 8, 9, 11, 13, 16, 20] } {
+    for n in if quick { vec![3usize, 8, 9, 13, 17] } else { vec![2, 3, 5, 8, 9, 11, 13, 16, 17, 20, 24, 33] } {
         for (spec, k) in configs_for(n) {
             let phases = if quick { 3 } else { 4 };
             jobs.push(Box::new(move || {
